@@ -7,6 +7,7 @@ import (
 	"math"
 	"sort"
 	"strings"
+	"sync"
 	"testing"
 
 	"github.com/alibaba/RedisShake/pkg/libs/log"
@@ -525,6 +526,83 @@ func TestVerif_C12(t *testing.T) {
 		}
 	}
 	ev.Sample("file", []c12Rec{alpha[0], alpha[len(alpha)-1]})
+	ev.Eval(n)
+	ev.Trace(n)
+	ev.Trans(n)
+	ev.StatesAdd(n)
+	ev.NontrivialAdd(n)
+}
+
+// TestVerif_C12Race: encoder and decoder are used by several workers at once (decode mode, the
+// restore workers). Eight goroutines decode and re-encode their own payloads concurrently; each
+// result must be the one obtained alone. A -race build of this test reports shared storage.
+func TestVerif_C12Race(t *testing.T) {
+	defer ev.Flush("C12")
+	log.SetLevel(log.LEVEL_NONE)
+	if ev.ReplayFile() != "" {
+		return
+	}
+	si, _ := ev.ShardInfo()
+	if si != 0 {
+		return
+	}
+	type job struct {
+		name    string
+		payload []byte
+		obj     interface{}
+	}
+	var jobs []job
+	for _, v := range rdbcat.Values(1) {
+		if v.Type == rdbgen.TStream || len(v.Raw) > 4096 {
+			continue
+		}
+		p := rdbgen.Dump(v.Type, v.Raw, 6)
+		o, err := DecodeDump(p)
+		if err != nil {
+			continue // values the object decoder does not know are C12's sequential business
+		}
+		jobs = append(jobs, job{v.Name, p, o})
+	}
+	const workers = 8
+	var wg sync.WaitGroup
+	var mu sync.Mutex
+	bad := ""
+	rounds := 40
+	for w := 0; w < workers; w++ {
+		wg.Add(1)
+		go func(w int) {
+			defer wg.Done()
+			for r := 0; r < rounds; r++ {
+				for i := w; i < len(jobs); i += workers {
+					j := jobs[i]
+					o, err := DecodeDump(j.payload)
+					why := ""
+					if err != nil {
+						why = "DecodeDump fails: " + err.Error()
+					} else if !c12Same(o, j.obj) {
+						why = "DecodeDump returns " + c12Show(o) + ", alone it returns " + c12Show(j.obj)
+					} else if p2, err := EncodeDump(o); err != nil {
+						why = "EncodeDump fails: " + err.Error()
+					} else if o2, err := DecodeDump(p2); err != nil || !c12Same(o2, j.obj) {
+						why = fmt.Sprintf("the re-encoded payload decodes to something else (%v)", err)
+					}
+					if why != "" {
+						mu.Lock()
+						if bad == "" {
+							bad = fmt.Sprintf("%s, decoded by worker %d of %d concurrent ones: %s", j.name, w, workers, why)
+						}
+						mu.Unlock()
+						return
+					}
+				}
+			}
+		}(w)
+	}
+	wg.Wait()
+	if bad != "" {
+		ev.Violate("C12|concurrent-decodes", bad, c12Case{Sub: "race"})
+	}
+	n := int64(rounds * len(jobs))
 	ev.Eval(n)
 	ev.Trace(n)
 	ev.Trans(n)
